@@ -56,6 +56,7 @@ class Ctx:
         self.known = KnownFindings()
         self.stats = {}
         self.extra = {}
+        self.broken = []
 
     def rule(self, rule, doc, floor=1):
         self.rules_doc[rule] = doc
@@ -71,16 +72,23 @@ class Ctx:
     def note(self, s):
         self.notes.append(s)
 
+    def guard(self, fn, *args, **kw):
+        """run one rule group; an analysis-broken condition inside it is remembered so that the other groups still report"""
+        try:
+            return fn(*args, **kw)
+        except AnalysisBroken as e:
+            self.broken.append('%s: %s' % (getattr(fn, '__name__', '?'), e))
+            return None
+
     def finish(self, prog=None):
         # instance floors
         counts = {}
         for o in self.obligations:
             counts[o['rule']] = counts.get(o['rule'], 0) + 1
         for r, n in self.floors.items():
-            if counts.get(r, 0) < n:
-                raise AnalysisBroken('rule %s matched %d instance(s), expected at least %d — anchor code '
-                                     'moved or renamed; the rule table must be re-confirmed'
-                                     % (r, counts.get(r, 0), n))
+            if counts.get(r, 0) < n and not any(b.startswith(r.split('.')[-1].lower()) for b in self.broken):
+                self.broken.append('rule %s matched %d instance(s), expected at least %d — anchor code moved or renamed; '
+                                   'the rule table must be re-confirmed' % (r, counts.get(r, 0), n))
         violations = []
         known_printed = []
         seen = set()
@@ -142,6 +150,7 @@ class Ctx:
                       for r in sorted(self.rules_doc)},
             'known_findings_printed': known_printed,
             'notes': self.notes,
+            'analysis_broken': self.broken,
         }
         if prog is not None:
             cov['translation_units'] = len(prog.tus)
@@ -163,7 +172,11 @@ class Ctx:
         os.makedirs(EVDIR, exist_ok=True)
         with open(os.path.join(EVDIR, '%s.json' % self.prop), 'w') as fh:
             json.dump(ev, fh, indent=1)
+        for b in self.broken:
+            print('  analysis-broken: %s' % b)
         if violations:
             print('VIOLATION property=%s replay=%s' % (self.prop, replay))
             return 1
+        if self.broken:
+            raise AnalysisBroken('; '.join(self.broken))
         return 0
